@@ -91,10 +91,24 @@ def content(obj):
     return d
 
 
+_MOBJ = {}
+
+
+def marking_object(mid):
+    import stix2.v21
+    if mid not in _MOBJ:
+        _MOBJ[mid] = stix2.v21.MarkingDefinition(id=mid, definition_type="statement", definition={"statement": "verif"}, created="2020-01-01T00:00:00.000Z")
+    return _MOBJ[mid]
+
+
 def call(op, obj, ms, ss, ur, ul, inh, desc, via):
     """executes one abstract operation on the real object.  returns (res, resulting object)"""
     import stix2.markings as M
     marks = [MARK[m] for m in ms]
+    # the marking functions document identifiers *or marking-definition objects*: a third of the calls (chosen by the arguments, so a replay makes the same choice) hand
+    # the marking over as an object
+    if (len(json.dumps([op, sorted(ms), sorted(map(list, ss)), inh, desc])) + len(via)) % 3 == 0:
+        marks = [marking_object(m) if m.startswith("marking-definition--") else m for m in marks]
     marks = marks[0] if len(marks) == 1 and via == "method" else marks
     sels = [sel(s) for s in ss]
     sels = sels[0] if len(sels) == 1 and via == "function" else sels
